@@ -607,6 +607,36 @@ theorem gen_DCDF_inplace_real (p : Array ℝ) (h : p.size ≠ 0) :
 theorem gen_DCDF_empty (c : Array ℝ) : esl_vec_DCDF (#[] : Array ℝ) 0 c = none := rfl
 example : (#[0.5, 0.5] : Array ℝ).size ≠ 0 := by decide
 
+/-! ### esl_matrixops.c: what each arithmetic / comparing routine returns on an `M × N` matrix (flat block of `M*N` cells) -/
+/-- `esl_mat_{D,F}Scale` multiply every cell by the scalar; `esl_mat_{D,F}Max` return the maximum cell (fault on an empty block, as the
+    vector routine); `esl_mat_{D,F}Set` store the value in every cell — never a fault when the block has `M*N` cells -/
+theorem gen_mat_spec {α : Type} [VNum α] (A : Array α) (M N : Int) (h : (A.size : Int) = M * N) (s : α) :
+    (∃ r, esl_mat_DScale A M N s = some r ∧ r.toList = scale A.toList s) ∧ (∃ r, esl_mat_FScale A M N s = some r ∧ r.toList = scale A.toList s) ∧
+    esl_mat_DMax A M N = vmax A.toList ∧ esl_mat_FMax A M N = vmax A.toList ∧
+    (∃ r, esl_mat_DSet A M N s = some r ∧ r.toList = A.toList.map fun _ => s) ∧ (∃ r, esl_mat_FSet A M N s = some r ∧ r.toList = A.toList.map fun _ => s) := by
+  obtain ⟨_, _, _, _, dSet, dScale, _, dMax, fSet, fScale, _, fMax, _, _⟩ := Vec.gen_mat_flat A A M N s
+  refine ⟨?_, ?_, ?_, ?_, ?_, ?_⟩
+  · rw [dScale, ← h]; exact (gen_Scale A s).1
+  · rw [fScale, ← h]; exact (gen_Scale A s).2
+  · rw [dMax, ← h, Vec.max_DI]; exact Vec.gen_max A
+  · rw [fMax, ← h, Vec.max_FI]; exact Vec.gen_max A
+  · rw [dSet, ← h]; exact (gen_Set A s).2.2.1
+  · rw [fSet, ← h]; exact (gen_Set A s).2.2.2
+/-- `esl_mat_IScale` is exact over ℤ while every product is representable; `esl_mat_IMax` is the maximum; `esl_mat_ICompare` answers
+    `eslOK` (0) exactly for equal matrices and `eslFAIL` (1) otherwise -/
+theorem gen_mat_int_spec (A B : Array Int32) (M N : Int) (h : (A.size : Int) = M * N) (hB : A.size = B.size) (s : Int32)
+    (hs : ∀ x ∈ A.toList, -2147483648 ≤ x.toInt * s.toInt ∧ x.toInt * s.toInt ≤ 2147483647) :
+    (∃ r, esl_mat_IScale A M N s = some r ∧ r.toList.map Int32.toInt = A.toList.map fun x => x.toInt * s.toInt) ∧
+    esl_mat_IMax A M N = vmax A.toList ∧
+    (A = B → esl_mat_ICompare A B M N = some 0) ∧ (A ≠ B → esl_mat_ICompare A B M N = some 1) := by
+  obtain ⟨_, iScale, _, iMax, _⟩ := Vec.gen_mat_flat A A M N s
+  refine ⟨?_, ?_, ?_, ?_⟩
+  · rw [iScale, ← h]; exact gen_IScale_exact A s hs
+  · rw [iMax, ← h]; exact Vec.gen_max A
+  · intro e; rw [Vec.gen_mat_icompare_flat A B M N, ← h]; exact (gen_ICompare A B hB).1 e
+  · intro e; rw [Vec.gen_mat_icompare_flat A B M N, ← h]; exact (gen_ICompare A B hB).2 e
+example : ((#[1, 2, 3, 4, 5, 6] : Array Int32).size : Int) = 2 * 3 := by decide
+
 /-! ### the probability / log-space routines over `float`, as REGENERATED from esl_vectorops.c on every run
 
 The translation keeps the C text's two precisions apart: binary32 cells `α`, and the sub-expressions C's usual arithmetic conversions evaluate
@@ -699,6 +729,84 @@ theorem gen_RelEntropy_real (I : ℝ) (p q : Array ℝ) (h : p.size = q.size) :
   · rw [z]; show some ((relEntropyGo p.toList q.toList 0).getD I) = _
     rw [sp]; split <;> simp
 example : (#[0.5, 0.5] : Array ℝ).size = (#[0.25, 0.75] : Array ℝ).size := rfl
+/-- `esl_vec_{D,F}Validate` as regenerated (the statement macros `ESL_FAIL` / `ESL_XFAIL` with their `return` / `goto ERROR` followed; the
+    text written to `errbuf` is outside the model): the hand model's `validate` for every element type.  `hn`, `ho` spell the two C
+    expressions the hand model abbreviates: `!isfinite(x) || x < 0.0 || x > 1.0` and `fabs(sum - 1.0) > tol`. -/
+theorem gen_Validate {α : Type} [VNum α] [VFin α]
+    (hn : ∀ x : α, VNum.notProb x = (!(VFin.isFinite x) || VOrd.lt x (VNum.ofNat 0) || VOrd.lt (VNum.ofNat 1) x))
+    (ho : ∀ s tol : α, VNum.offOne s tol = VOrd.lt tol (VFin.abs (s - VNum.ofNat 1))) (v : Array α) (tol : α) :
+    esl_vec_DValidate v v.size tol = some (if validate v.toList tol then 0 else 1) ∧
+    esl_vec_FValidate v v.size tol = some (if validate v.toList tol then 0 else 1) := ⟨Vec.gen_DValidate hn ho v tol, Vec.gen_FValidate hn ho v tol⟩
+/-- over the reals (every real is finite, `fabs` is the absolute value): `eslOK` (0) exactly for the empty vector and for vectors with
+    every cell in `[0,1]` and `|Σ - 1| ≤ tol`; `eslFAIL` (1) otherwise; never a fault -/
+noncomputable def realFin : VFin ℝ := ⟨fun _ => true, fun x => |x|⟩
+theorem gen_Validate_real (v : Array ℝ) (tol : ℝ) :
+    (v.toList ≠ [] → (@esl_vec_DValidate ℝ _ realFin v v.size tol = some 0 ↔ (∀ x ∈ v.toList, 0 ≤ x ∧ x ≤ 1) ∧ |v.toList.sum - 1| ≤ tol) ∧
+      (@esl_vec_FValidate ℝ _ realFin ℝ (VMix.same ℝ) _ realFin v v.size tol = some 0 ↔ (∀ x ∈ v.toList, 0 ≤ x ∧ x ≤ 1) ∧ |v.toList.sum - 1| ≤ tol)) ∧
+    (@esl_vec_DValidate ℝ _ realFin v v.size tol = some 0 ∨ @esl_vec_DValidate ℝ _ realFin v v.size tol = some 1) := by
+  have hn : ∀ x : ℝ, VNum.notProb x = (!(@VFin.isFinite ℝ realFin x) || VOrd.lt x (VNum.ofNat 0) || VOrd.lt (VNum.ofNat 1) x) := by
+    intro x; show decide (x < 0 ∨ x > 1) = (!true || decide (x < ((0 : ℕ) : ℝ)) || decide (((1 : ℕ) : ℝ) < x)); simp
+  have ho : ∀ s tol : ℝ, VNum.offOne s tol = VOrd.lt tol (@VFin.abs ℝ realFin (s - VNum.ofNat 1)) := by
+    intro s tol; show decide (|s - 1| > tol) = decide (tol < |s - ((1 : ℕ) : ℝ)|); simp
+  have e1 := @Vec.gen_DValidate ℝ _ realFin hn ho v tol
+  have e2 := @Vec.gen_FValidate ℝ _ realFin hn ho v tol
+  refine ⟨fun hne => ⟨?_, ?_⟩, ?_⟩
+  · rw [e1, ← Vec.validate_spec v.toList tol hne]; cases validate v.toList tol <;> simp
+  · rw [e2, ← Vec.validate_spec v.toList tol hne]; cases validate v.toList tol <;> simp
+  · rw [e1]; cases validate v.toList tol <;> simp
+example : (#[0.5, 0.5] : Array ℝ).toList ≠ [] := by simp
+/-- `esl_vec_{D,F}LogValidate`, `esl_vec_{D,F}Log2Validate` as regenerated (ESL_ALLOC of a scratch copy, Copy, Exp / Exp2, Validate, the
+    status passed on through `goto ERROR`): the hand model's `logValidate` / `log2Validate` for every element type; never a fault -/
+theorem gen_LogValidate {α : Type} [VInf α] [VFin α]
+    (hn : ∀ x : α, VNum.notProb x = (!(VFin.isFinite x) || VOrd.lt x (VNum.ofNat 0) || VOrd.lt (VNum.ofNat 1) x))
+    (ho : ∀ s tol : α, VNum.offOne s tol = VOrd.lt tol (VFin.abs (s - VNum.ofNat 1))) (v : Array α) (tol : α) :
+    (esl_vec_DLogValidate v v.size tol = some (if logValidate v.toList tol then 0 else 1) ∧
+     esl_vec_DLog2Validate v v.size tol = some (if log2Validate v.toList tol then 0 else 1)) ∧
+    (esl_vec_FLogValidate v v.size tol = some (if logValidate v.toList tol then 0 else 1) ∧
+     esl_vec_FLog2Validate v v.size tol = some (if log2Validate v.toList tol then 0 else 1)) :=
+  ⟨Vec.gen_DLogValidate hn ho v tol, Vec.gen_FLogValidate hn ho v tol⟩
+/-- over the reals: `esl_vec_DLogValidate` answers `eslOK` exactly when every `exp(v[i])` lies in `[0,1]` and `|Σ exp(v[i]) - 1| ≤ tol` -/
+theorem gen_LogValidate_real (v : Array ℝ) (tol : ℝ) (hne : v.toList ≠ []) :
+    @esl_vec_DLogValidate ℝ _ (realWithInf 0) realFin v v.size tol = some 0 ↔
+      (∀ y ∈ v.toList.map Real.exp, 0 ≤ y ∧ y ≤ 1) ∧ |(v.toList.map Real.exp).sum - 1| ≤ tol := by
+  have hn : ∀ x : ℝ, @VNum.notProb ℝ (realWithInf 0).toVNum x =
+      (!(@VFin.isFinite ℝ realFin x) || @VOrd.lt ℝ (realWithInf 0).toVNum.toVOrd x (@VNum.ofNat ℝ (realWithInf 0).toVNum 0) ||
+        @VOrd.lt ℝ (realWithInf 0).toVNum.toVOrd (@VNum.ofNat ℝ (realWithInf 0).toVNum 1) x) := by
+    intro x; show decide (x < 0 ∨ x > 1) = (!true || decide (x < ((0 : ℕ) : ℝ)) || decide (((1 : ℕ) : ℝ) < x)); simp
+  have ho : ∀ s tol : ℝ, @VNum.offOne ℝ (realWithInf 0).toVNum s tol =
+      @VOrd.lt ℝ (realWithInf 0).toVNum.toVOrd tol (@VFin.abs ℝ realFin (s - @VNum.ofNat ℝ (realWithInf 0).toVNum 1)) := by
+    intro s tol; show decide (|s - 1| > tol) = decide (tol < |s - ((1 : ℕ) : ℝ)|); simp
+  have e := (@Vec.gen_DLogValidate ℝ (realWithInf 0) realFin hn ho v tol).1
+  have lv : @logValidate ℝ (realWithInf 0) v.toList tol = validate (v.toList.map Real.exp) tol := by
+    unfold logValidate
+    have : v.toList.isEmpty = false := by rw [List.isEmpty_eq_false_iff]; exact hne
+    rw [this]; rfl
+  refine (show _ = _ from e) ▸ ?_
+  rw [lv, ← Vec.validate_spec (v.toList.map Real.exp) tol (by simpa using hne)]
+  cases validate (v.toList.map Real.exp) tol <;> simp
+/-- the conversion routines as regenerated: cell by cell C's implicit conversion — `(float) d` (`VMix.narrow`, the one rounding),
+    `(double) f` (`VMix.widen`, exact), `(T) i` for an `int` cell — never a fault when `dst` has room; and converting `float → double → float`
+    gives the vector back whenever every binary32 value is representable in the wide type (`narrow (widen x) = x`) -/
+theorem gen_D2F {α ω : Type} [CElem α] [VMix α ω] [VNum ω] (src : Array ω) (dst : Array α) (hd : dst.size = src.size) :
+    ∃ r, esl_vec_D2F src src.size dst = some r ∧ r.toList = src.toList.map VMix.narrow := Vec.gen_D2F src dst hd
+theorem gen_F2D {α ω : Type} [CElem α] [VMix α ω] [VNum ω] (src : Array α) (dst : Array ω) (hd : dst.size = src.size) :
+    ∃ r, esl_vec_F2D src src.size dst = some r ∧ r.toList = src.toList.map VMix.widen := Vec.gen_F2D src dst hd
+theorem gen_I2F {α ι : Type} [CElem α] [VInt α ι] (src : Array ι) (dst : Array α) (hd : dst.size = src.size) :
+    (∃ r, esl_vec_I2F src src.size dst = some r ∧ r.toList = src.toList.map VInt.ofInt) ∧
+    (∃ r, esl_vec_I2D src src.size dst = some r ∧ r.toList = src.toList.map VInt.ofInt) := Vec.gen_I2F src dst hd
+theorem gen_F2D_D2F_roundtrip {α ω : Type} [CElem α] [VMix α ω] [VNum ω] (hex : ∀ x : α, VMix.narrow (VMix.widen x : ω) = x)
+    (v f : Array α) (d : Array ω) (hd : d.size = v.size) (hf : f.size = v.size) :
+    ∃ r, esl_vec_F2D v v.size d = some r ∧ esl_vec_D2F r r.size f = some v := by
+  obtain ⟨r, hr, hl⟩ := Vec.gen_F2D v d hd
+  have hs : r.size = v.size := by have := congrArg List.length hl; simpa using this
+  obtain ⟨r', hr', hl'⟩ := Vec.gen_D2F r f (by omega)
+  refine ⟨r, hr, ?_⟩
+  rw [hr']; congr 1
+  apply Array.toList_inj.mp
+  rw [hl', hl, List.map_map]
+  have : (VMix.narrow ∘ (VMix.widen : α → ω)) = id := by funext x; exact hex x
+  rw [this, List.map_id]
+example : ∀ x : ℝ, (@VMix.narrow ℝ ℝ (VMix.same ℝ) (@VMix.widen ℝ ℝ (VMix.same ℝ) x)) = x := fun _ => rfl
 example : (#[1, 2, 3] : Array ℝ).toList.sum ≠ 0 := by norm_num
 example : VNum.eq (Vec.sum [(1 : ℝ), 2]) (VNum.ofNat 0 : ℝ) = false := by
   rw [Vec.sum_eq_real]; show decide ((1 : ℝ) + (2 + 0) = ((0 : ℕ) : ℝ)) = false; norm_num
